@@ -815,6 +815,18 @@ func (v *fnVC) builtin(x *ssa.Call, b *ssa.Builtin) {
 			addLen = app("slen_", more)
 		}
 		nl := app("+", app("slen_", s), addLen)
+		if len(args) > 1 {
+			// Go appends in place when the capacity allows it: the cells behind len(s) of s's backing array are
+			// written then. Where the function claims a frame, that backing array has to be writable under it
+			// (fresh, or named by the modifies clause) unless the append provably reallocates (nil slice, no
+			// spare capacity) or appends nothing. The *result* is still modelled as a fresh backing array.
+			v.P.add("elemAxiom", "(assert (forall ((b Int) (i Int)) (! (and (= (ebase (elem b i)) b) (= (eidx (elem b i)) i) (= (akind (elem b i)) (- 1)) (= (root (elem b i)) (root b))) :pattern ((elem b i)))))")
+			spare := fmt.Sprintf("(elem (sbase %s) %s)", s, v.ix(app("soff", s), app("slen_", s)))
+			if alts, ok := v.frameAlts(spare); ok {
+				alts = append(alts, app("<=", addLen, "0"), eq(app("sbase", s), "0"), app(">", nl, app("scap", s)))
+				v.oblige("frame.append", "append may write into the spare capacity of its first argument", or(alts...), x.Pos())
+			}
+		}
 		for _, lp := range v.leafPaths(et) {
 			old := v.memOrEntry(lp.mem)
 			nm := v.newConst(lp.mem, fmt.Sprintf("(Array Int %s)", v.memSrt[lp.mem]))
